@@ -110,7 +110,7 @@ PROPS = {
                         'non-blocking: Sender::send / force_send terminate (Verus decreases) and take no lock'],
     },
     'C11': {
-        'verus': [('local', ['SpanLine::current_collect_token', 'LocalSpanStack::current_collect_token'])],
+        'verus': [('local', ['SpanLine::current_collect_token', 'LocalSpanStack::current_collect_token', 'SpanContext::current_local_parent'])],
         'kani': ['root_lifecycle', 'finish_submits_sampled_items_only', 'span_of_no_trace', 'empty_parent_set', 'local_parent_guard_scope', 'child_token_names_parent'],
         'assumptions': [KANI_ENV, 'round trip through traceparent text: C12'],
     },
